@@ -817,7 +817,7 @@ class Sym:
             if pr.startswith("."):
                 name = pr[1:]
                 if name.startswith("^"):
-                    e = ("capture", name[1:])
+                    e = capture_expr(name[1:])
                 elif e[0] == "mutated" and e[1][0] in ("tuple", "agg"):
                     e = ("field", e, name)
                 elif e[0] == "tuple" and name.isdigit() and int(name) < len(e[1]):
@@ -886,6 +886,19 @@ class Sym:
                 return ("closure", rv["def"], ops)
             return ("tuple", ops)
         return ("other", rv.get("s"))
+
+
+def capture_expr(name):
+    """Closure capture names: `_ref__self__time` (edition-2021 precise capture of self.time by
+    reference) -> field(capture self, time)."""
+    if name.startswith("_ref__"):
+        name = name[6:]
+    parts = name.split("__")
+    e = ("capture", parts[0])
+    for f in parts[1:]:
+        if f:
+            e = ("field", e, f)
+    return e
 
 
 def expr_children(e):
